@@ -101,6 +101,7 @@ DerivedFailed(e) ==
      \cup (IF ~Near(e.t1, 1) \/ ~RelClose(RMul(QR(e.t1rel), rate), ROne) THEN {"time_at"} ELSE {})
      \cup (IF ~Near(e.read1, 1) THEN {"read-start"} ELSE {})
      \cup (IF ~RelClose(QR(e.rate_read), rate) THEN {"read-sample_rate"} ELSE {})
+     \cup {k \in DOMAIN e.flags : ~e.flags[k]}
 Failed(e) ==
   CASE e.ev = "read" -> ReadFailed(e)
     [] e.ev = "derived" -> DerivedFailed(e)
